@@ -259,6 +259,72 @@ def _derived_bases(model, rep):
                      f"derived from", fn.lineno)
 
 
+def _boundary_basis(model, rep):
+    """CellBasis.boundary(facets, intorder, quadrature): the facet basis is
+    built on the same mesh / element / mapping and with the facets, order
+    and rule the caller asked for."""
+    R1 = "C02-R1"
+    cls = model.cls(f"{AB}.cell_basis", "CellBasis")
+    fn = cls.methods.get("boundary")
+    if fn is None:
+        raise AnalysisError("CellBasis.boundary not found")
+    built = {}
+
+    def hook(interp, name, args, kwargs, node):
+        if name.endswith(".FacetBasis") or name.endswith(
+                ".BoundaryFacetBasis"):
+            built["a"], built["k"] = list(args), dict(kwargs)
+            return "FB"
+        return NotImplemented
+    obj = Obj(cls, {"mesh": "MESH", "elem": "ELEM", "mapping": "MAP",
+                    "tind": None, "dofs": "DOFS", "quadrature": "QSELF"})
+    try:
+        Interp(model, call_hook=hook).call(
+            fn, [], {"facets": "F", "intorder": "K", "quadrature": "Q"},
+            self_obj=obj)
+    except (Unsupported, Raised) as e:
+        raise AnalysisError(f"CellBasis.boundary: {e}")
+    if "a" not in built:
+        raise AnalysisError("CellBasis.boundary: FacetBasis not constructed")
+    fcls = model.cls(f"{AB}.facet_basis", "FacetBasis")
+    sig = fcls.methods["__init__"].params()[1:]
+    bound = dict(zip(sig, built["a"]))
+    bound.update(built["k"])
+    want = {"mesh": "MESH", "elem": "ELEM", "mapping": "MAP", "facets": "F",
+            "intorder": "K", "quadrature": "Q"}
+    missing = sorted(k for k, v in want.items() if bound.get(k) != v)
+    if not missing:
+        rep.ok(R1, "CellBasis.boundary:forwards", "facets, intorder and "
+               "quadrature of the call, mesh / element / mapping of the "
+               "basis")
+    else:
+        rep.fail(R1, fn.path, "CellBasis.boundary",
+                 "CellBasis.boundary:forwards",
+                 f"the facet basis does not receive {missing} (got "
+                 f"{ {k: v for k, v in bound.items() if v is not None} }): "
+                 f"e.g. a requested integration order is silently replaced "
+                 f"by the default 2*maxdeg rule on the boundary",
+                 fn.lineno)
+    # a basis on a subset of cells has no 'boundary': must raise
+    obj2 = Obj(cls, {"mesh": "MESH", "elem": "ELEM", "mapping": "MAP",
+                     "tind": "TIND", "dofs": "DOFS"})
+    try:
+        Interp(model, call_hook=hook).call(fn, [], {}, self_obj=obj2)
+        raised = False
+    except Raised:
+        raised = True
+    except Unsupported as e:
+        raise AnalysisError(f"CellBasis.boundary(subset): {e}")
+    if raised:
+        rep.ok(R1, "CellBasis.boundary:subset", "a basis on a cell subset "
+               "refuses to guess its boundary")
+    else:
+        rep.fail(R1, fn.path, "CellBasis.boundary",
+                 "CellBasis.boundary:subset", "a basis restricted to a cell "
+                 "subset returns the boundary of the whole mesh",
+                 fn.lineno)
+
+
 def _r12(model, rep):
     R1, R2 = "C02-R1", "C02-R2"
     # ---------------- CellBasis
@@ -578,6 +644,7 @@ def run(model: Model, rep, tier: str) -> None:
     rep.rule("C02-R3", "declared maxdeg >= total degree of every local "
              "basis polynomial")
     staged(lambda: _derived_bases(model, rep),
+           lambda: _boundary_basis(model, rep),
            lambda: _r12(model, rep), lambda: _interior_basis(model, rep),
            lambda: _r3(model, rep))
     rep.require_min("C02-R1", 12)
@@ -589,6 +656,10 @@ _CB = "skfem/assembly/basis/cell_basis.py"
 _FB = "skfem/assembly/basis/facet_basis.py"
 _ABF = "skfem/assembly/basis/abstract_basis.py"
 MUTANTS = [
+    ("boundary() forgets the requested integration order",
+     ("skfem/assembly/basis/cell_basis.py",
+      "            facets=facets,\n            intorder=intorder,\n",
+      "            facets=facets,\n"), "C02-R1"),
     ("with_element forgets the cell subset",
      ("skfem/assembly/basis/cell_basis.py",
       "            quadrature=self.quadrature,\n            "
